@@ -5,6 +5,7 @@ import Verif.Proofs.C09HtmlPieces
 import Verif.Proofs.C09HtmlSecond
 import Verif.Proofs.C09HtmlFlagship
 import Verif.Proofs.C09HtmlSpecial
+import Verif.Proofs.C09HtmlTextLt
 import Verif.Props.C03
 /-!
 # C09 / HTML — property-level theorems
@@ -149,6 +150,12 @@ theorem html_output_retokenises_counterexample : ¬ Verif.Proofs.C09HtmlFlagship
 theorem html_output_retokenises_lexshape_counterexample :
     ¬ Verif.Proofs.C09HtmlFlagship.html_output_retokenises_lexshape_full :=
   Verif.Proofs.C09HtmlFlagship.html_output_retokenises_lexshape_counterexample
+
+/-- **html_text_lt_stays_escaped**: see `Verif.Proofs.C09HtmlTextLt.html_text_lt_stays_escaped` — an ordinary text token
+    without a raw `<` is written without any `<` (every reference to `<`, in whatever spelling, stays `&lt;`), for all
+    options; hence its piece satisfies the flagship's `textSafe` guard. -/
+theorem html_text_lt_stays_escaped : type_of% @Verif.Proofs.C09HtmlTextLt.html_text_lt_stays_escaped :=
+  @Verif.Proofs.C09HtmlTextLt.html_text_lt_stays_escaped
 
 /-- **html_text_safe_not_preserved** (K-C09-HTML-10): `<&#98;>` is written as `<b>` -/
 theorem html_text_safe_not_preserved : type_of% @Verif.Proofs.C09HtmlFlagship.html_text_safe_not_preserved :=
